@@ -55,6 +55,22 @@ Proof.
   rewrite H by (left; reflexivity). apply IH. intros; apply H; right; auto.
 Qed.
 
+Lemma fold_left_map {A B C} (f : A -> C -> A) (g : B -> C) l a :
+  fold_left f (map g l) a = fold_left (fun a x => f a (g x)) l a.
+Proof. revert a; induction l as [|x l IH]; intros a; cbn [map fold_left]; auto. Qed.
+
+Lemma map_nth_seq (l : list X) (d : X) : map (fun j => nth j l d) (seq 0 (length l)) = l.
+Proof.
+  induction l as [|x l IH]; [reflexivity|].
+  cbn [length seq map nth]. f_equal. rewrite <- seq_shift, map_map. exact IH.
+Qed.
+
+Lemma in_indexed_nth (l : list X) (d : X) j : j < length l -> In (j, nth j l d) (indexed l).
+Proof.
+  intros Hj. rewrite (indexed_eq l d).
+  apply (in_map (fun j => (j, nth j l d))). apply in_seq. lia.
+Qed.
+
 End Lists.
 
 Lemma nth_map_seq {Y} (f : nat -> Y) n j d : j < n -> nth j (map f (seq 0 n)) d = f j.
